@@ -222,6 +222,12 @@ struct OpRec {
     cancel_mark: usize,
     /// poll-line count at push time
     pushed_at: usize,
+    /// poll-line count when its SQE was submitted (io_uring; usize::MAX while it is only queued)
+    submit_mark: usize,
+    /// the OS had certainly delivered this op's data when the first cancel of any route was requested
+    delivered_before_cancel: bool,
+    /// the first cancel went through `cancel(key.clone())`
+    first_cancel_was_clone: bool,
     /// SQE written but not yet submitted (harness estimate)
     queued: bool,
     /// CQEs estimated to sit in the CQ unseen (multishot / zero-copy)
@@ -275,7 +281,11 @@ struct World {
     ops: Vec<OpRec>,
     slots: Vec<Option<Slot>>,
     /// chunks written to a slot and not yet seen in a completed recv
-    written: Vec<VecDeque<[u8; CHUNK]>>,
+    written: Vec<VecDeque<(usize, [u8; CHUNK])>>,
+    /// number of chunks ever written to a slot
+    written_total: Vec<usize>,
+    /// polling driver: (op, ordinal of the chunk it received) for queued receives of a slot, in the order observed
+    delivered: Vec<Vec<(usize, usize)>>,
     ever_ready: Vec<bool>,
     seq: u8,
     polls: usize,
@@ -327,6 +337,8 @@ impl World {
             ops: vec![],
             slots: (0..8).map(|_| None).collect(),
             written: (0..8).map(|_| VecDeque::new()).collect(),
+            written_total: vec![0; 8],
+            delivered: (0..8).map(|_| vec![]).collect(),
             ever_ready: vec![false; 8],
             seq: 0,
             polls: 0,
@@ -418,9 +430,11 @@ impl World {
     fn note_submit(&mut self) {
         self.sq_est = 0;
         self.submits += 1;
+        let polls = self.polls;
         for o in &mut self.ops {
             if o.queued {
                 o.queued = false;
+                o.submit_mark = polls;
                 if o.kind == HKind::Zc {
                     o.undrained = 2;
                 }
@@ -458,6 +472,64 @@ impl World {
         }
     }
 
+    /// Has the OS certainly delivered the data of receive `i`? Decided from the socket alone: chunks written to the
+    /// descriptor, minus those the harness has seen delivered, minus what is still readable (FIONREAD), are held by
+    /// receives whose result nobody has looked at yet; when they are at least as many as those receives, each has one.
+    fn data_delivered(&mut self, i: usize) -> bool {
+        let o = &self.ops[i];
+        if o.kind != HKind::Rd || !o.pending || o.returned {
+            return false;
+        }
+        let s = o.slot;
+        let fd = match &self.slots[s] {
+            Some(Slot::Pair { a, .. }) => a.as_raw_fd(),
+            _ => return false,
+        };
+        let mut n: libc::c_int = 0;
+        if unsafe { libc::ioctl(fd, libc::FIONREAD, &mut n) } != 0 {
+            return false;
+        }
+        let in_socket = n as usize / CHUNK;
+        let unseen = self.written[s].len();
+        if unseen < in_socket {
+            return false;
+        }
+        let consumed = unseen - in_socket;
+        let holders = self.ops.iter().filter(|p| p.kind == HKind::Rd && p.slot == s && p.pending && !p.returned).count();
+        consumed >= holders
+    }
+
+    /// … and has the driver certainly reaped that completion (a poll-to-quiescence ran after the data was written and
+    /// after the op was handed to the OS)?
+    fn completion_reaped(&mut self, i: usize) -> bool {
+        if !self.data_delivered(i) {
+            return false;
+        }
+        let o = &self.ops[i];
+        let mark = if self.iour() { o.submit_mark } else { o.pushed_at };
+        mark != usize::MAX && self.polls > mark.max(self.ready_at[o.slot])
+    }
+
+    /// called before a cancel of any route is executed
+    fn before_cancel(&mut self, i: usize, clone_route: bool) -> bool {
+        let reaped = self.completion_reaped(i);
+        if !self.ops[i].cancel_requested {
+            let d = self.data_delivered(i);
+            self.ops[i].delivered_before_cancel = d;
+            self.ops[i].first_cancel_was_clone = clone_route;
+        }
+        reaped
+    }
+
+    /// honesty on the order completion -> cancel -> collect: is an ECANCELED / a `Key not unique` panic for op `i` a lie?
+    /// (`cancel(key.clone())` on a completed op of the POLLING driver is excluded: there the documented hazard of
+    /// cloned keys applies — the entry `cancel_one` emits for any key overwrites the result; `CancelToken::register`
+    /// only takes that route right after a submit that returned Pending.)
+    fn overwritten(&self, i: usize) -> bool {
+        let o = &self.ops[i];
+        o.delivered_before_cancel && !(o.first_cancel_was_clone && !self.iour())
+    }
+
     /// bookkeeping of a cancel that reached `Driver::cancel`. io_uring queues the AsyncCancel SQE through `push_raw`:
     /// with a full submission queue the driver submitted and reaped completions INSIDE the cancel call; CQEs caused
     /// by that submit may arrive a moment later (same race as for an overflowing `push`), so poll to quiescence.
@@ -476,8 +548,8 @@ impl World {
         if overflow {
             if let Some(p) = self.p.as_mut() {
                 settle(p);
-                self.polls += 1;
                 self.note_poll();
+                self.polls += 1;
             }
         }
     }
@@ -535,10 +607,25 @@ impl World {
                     ex.fail("C05:fabricated-success", format!("op {i}: recv returned Ok({n}) with {} bytes; chunks are {CHUNK} bytes", data.len()));
                     return;
                 }
-                let pos = self.written[slot].iter().position(|c| c[..] == data[..]);
+                let pos = self.written[slot].iter().position(|(_, c)| c[..] == data[..]);
                 match pos {
                     Some(p) => {
-                        self.written[slot].remove(p);
+                        let (ord, _) = self.written[slot].remove(p).unwrap();
+                        // polling driver: receives QUEUED on one descriptor are served first in, first out, so an
+                        // older queued receive never gets a later chunk than a younger one (locality of cancel: removing
+                        // a neighbour must not reorder the others)
+                        if !self.iour() && self.ops[i].pending {
+                            for &(j, oj) in &self.delivered[slot] {
+                                if (j < i) != (oj < ord) {
+                                    ex.fail(
+                                        "C05:neighbour-reordered",
+                                        format!("polling driver, slot {slot}: queued receive {i} got chunk #{ord} but queued receive {j} got chunk #{oj}: the waiters of one descriptor were not served in submission order"),
+                                    );
+                                    break;
+                                }
+                            }
+                            self.delivered[slot].push((i, ord));
+                        }
                     }
                     None => ex.fail(
                         "C05:fabricated-success",
@@ -547,6 +634,12 @@ impl World {
                 }
             }
             Err(e) => {
+                if e.raw_os_error() == Some(libc::ECANCELED) && self.overwritten(i) {
+                    ex.fail(
+                        "C05:genuine-result-overwritten",
+                        format!("op {i} on slot {slot}: the OS had delivered its data before it was cancelled, but it finished with ECANCELED (the bytes are lost)"),
+                    );
+                }
                 if e.raw_os_error() == Some(libc::ECANCELED) && !self.ops[i].cancel_requested {
                     ex.fail("C05:neighbour-cancelled", format!("op {i} on slot {slot} finished with ECANCELED but was never cancelled"));
                 }
@@ -681,7 +774,9 @@ impl World {
                         for _ in 0..k {
                             self.seq = self.seq.wrapping_add(1);
                             let c = [0xA0 | s as u8, self.seq, self.seq ^ 0x5A, 0x77];
-                            self.written[s].push_back(c);
+                            let ord = self.written_total[s];
+                            self.written_total[s] += 1;
+                            self.written[s].push_back((ord, c));
                             if let Slot::Pair { peer, .. } = self.slot(s) {
                                 peer.write_all(&c).unwrap();
                             }
@@ -717,8 +812,8 @@ impl World {
             ["poll"] => {
                 let Some(p) = self.p.as_mut() else { return self.fin("noproactor") };
                 settle(p);
-                self.polls += 1;
                 self.note_poll();
+                self.polls += 1;
                 "ok".into()
             }
             ["flush"] => {
@@ -738,8 +833,8 @@ impl World {
                     // same race as in `push` (arm_notifier goes through the overflow loop)
                     let p = self.p.as_mut().unwrap();
                     settle(p);
-                    self.polls += 1;
                     self.note_poll();
+                    self.polls += 1;
                 }
                 ex.tag("ev:flush");
                 "ok".into()
@@ -767,6 +862,12 @@ impl World {
                 };
                 self.p = Some(p);
                 self.ops[i].key = kb;
+                if out == "panic" && self.overwritten(i) {
+                    ex.fail(
+                        "C05:genuine-result-overwritten",
+                        format!("op {i}: the OS had delivered its data before it was cancelled, but collecting it panics `Key not unique` (a cancelled entry holds a key clone)"),
+                    );
+                }
                 self.after_pop(ex, i, &out);
                 out
             }
@@ -810,6 +911,7 @@ impl World {
                     return self.fin("nokey");
                 }
                 let first = !self.ops[i].cancel_requested;
+                let reaped = self.before_cancel(i, false);
                 self.ops[i].cancel_requested = true;
                 let mut kb = std::mem::replace(&mut self.ops[i].key, KeyBox::Rd(None));
                 let mut p = self.p.take().unwrap();
@@ -822,6 +924,12 @@ impl World {
                 };
                 self.p = Some(p);
                 self.ops[i].key = kb;
+                if out == "none" && first && reaped {
+                    ex.fail(
+                        "C05:genuine-result-overwritten",
+                        format!("op {i}: Proactor::cancel on a completed, never cancelled op (unique key) returned None instead of its genuine result"),
+                    );
+                }
                 if out == "none" && first && !self.ops[i].finished_known() {
                     self.note_driver_cancel(i);
                 }
@@ -841,6 +949,7 @@ impl World {
                     return self.fin("nokey");
                 }
                 let first = !self.ops[i].cancel_requested;
+                self.before_cancel(i, true);
                 self.ops[i].cancel_requested = true;
                 let p = self.p.as_mut().unwrap();
                 let some = with_key!(&self.ops[i].key, k => {
@@ -889,13 +998,20 @@ impl World {
                     return self.fin("noproactor");
                 }
                 let Some(t) = self.ops[i].token.clone() else { return self.fin("notoken") };
-                let p = self.p.as_mut().unwrap();
                 if self.ops[i].forgotten {
                     self.ops[i].touched_after_forget = true;
                     return self.fin("skip");
                 }
+                let reaped = self.before_cancel(i, false);
                 self.ops[i].cancel_requested = true;
+                let p = self.p.as_mut().unwrap();
                 let r = with_phase(PH_TCANCEL, || p.cancel_token(t));
+                if r && reaped {
+                    ex.fail(
+                        "C05:genuine-result-overwritten",
+                        format!("op {i}: cancel_token returned true although the op had already completed with its data (nothing was left to cancel); on the polling driver the ECANCELED entry it queues overwrites the genuine result"),
+                    );
+                }
                 if r {
                     self.note_driver_cancel(i);
                 }
@@ -916,8 +1032,8 @@ impl World {
                 if let Some(p) = self.p.as_mut() {
                     // the entry is in the completed channel now
                     settle(p);
-                    self.polls += 1;
                     self.note_poll();
+                    self.polls += 1;
                 }
                 ex.tag("ev:gate");
                 "ok".into()
@@ -1004,6 +1120,9 @@ impl World {
             cancel_sq_full: None,
             cancel_mark: 0,
             pushed_at: self.polls,
+            submit_mark: usize::MAX,
+            delivered_before_cancel: false,
+            first_cancel_was_clone: false,
             queued: false,
             undrained: 0,
             gate: None,
@@ -1127,8 +1246,8 @@ impl World {
         if overflow {
             if let Some(p) = self.p.as_mut() {
                 settle(p);
-                self.polls += 1;
                 self.note_poll();
+                self.polls += 1;
             }
         }
         out
